@@ -6,7 +6,7 @@ W137 == {1, 3, 7}
 EmitCase == (Done /\ kind # "layout") => PrintT(ToJson([kind |-> kind, X |-> X, Y |-> Y, w |-> w, D |-> D, vec |-> vec]))
 \* closed forms = DP for all small n, m (constant-level check, evaluated once at start-up of the configuration that names it)
 ClosedFormsOK ==
-    \A n \in 0..5, m \in 0..5 : \A ww \in {<<1, 1, 1>>, <<1, 2, 3>>, <<3, 1, 7>>, <<2, 5, 3>>, <<3, 5, 7>>} :
+    \A n \in 0..5, m \in 0..5 : \A ww \in {<<1, 1, 1>>, <<1, 2, 3>>, <<3, 1, 7>>, <<2, 5, 3>>, <<3, 5, 7>>, <<3, 1, 2>>, <<1, 1, 3>>, <<3, 3, 1>>, <<3, 2, 1>>} :
        /\ WLev(Rep(0, n), Rep(1, m), ww[1], ww[2], ww[3]) = CF_AnBm(n, m, ww)
        /\ WLev(Rep(0, n), Rep(0, m), ww[1], ww[2], ww[3]) = CF_AnAm(n, m, ww)
        /\ WLev(Rep(0, n) \o Rep(1, m), Rep(1, m), ww[1], ww[2], ww[3]) = CF_AnBmToBm(n, m, ww)
